@@ -26,6 +26,12 @@ def run(tier):
     S.vacuity(chk, rep.get("counters", {}), ["resp:" + k for k in KINDS] + ["resp:non-minimal-encodings", "resp:search-with-reference-message", "resp:with-referral", "resp:with-controls",
                                                                          "resp-group:rc", "resp-group:strings", "resp-group:ctrls", "resp-group:cross",
                                                                          "resp-group:ids", "resp-group:special"])
+    # result codes the caller's u32 cannot hold: refused by the specification's reader, so the caller must get an error
+    res2, rep2 = S.mc_replay(chk, "MCLdap4511", "MCLdap4511_badrc.cfg", "badrc", "", timeout=300)
+    chk.report(rep2, "S->I replay of responses with an unreportable result code (MCLdap4511, Dir = badrc)")
+    S.vacuity(chk, rep2.get("counters", {}), ["respfail:" + k for k in KINDS])
+    chk.rule.append("S->I: every response kind x resultCode octets in {none, 2^32, 2^32+10, 2^32 with a leading zero octet, 2^64, "
+                    "2^64-2^32}: BadRcRefused (the reader refuses them) and the caller gets an error, never a result")
     chk.exhaustive = True
     chk.rule.append("S->I: every response model of MCLdap4511 (eight response kinds x rc in {0,1,5,6,10,14,49,80,88,127,128,255,256,"
                     "65535,2^31-1} x 0-2 referrals x 0-2 controls with every criticality/value combination, also written out as "
